@@ -2,14 +2,14 @@
 from contracts.c05_solve import SolveContract, SolvePeriodContract
 from contracts.c10_labels import LocateDispatch
 from props.containers_bounded import LabelAccess
-from props.solve_bounded import SolveTScripted
+from props.solve_bounded import SolveTScripted, SolveVsLoop
 from verif.crosscheck import TARGETS as _XT, EncoderCrossCheck
 from verif.spec import PropertySpec
 
 PROPERTY = PropertySpec(
     id='C05',
     contracts=[SolveContract(), SolvePeriodContract(), LocateDispatch()],
-    bounded=[SolveTScripted(), LabelAccess()],
+    bounded=[SolveTScripted(), LabelAccess(), SolveVsLoop()],
     level='other',
     explanation='SolverMixin.solve (with iter_periods and PeriodIter inlined from source) and solve_period are proved against a ghost '
                 'call log of the single-period solver: exactly the positions pos(start)..pos(end) in order, caller options forwarded '
